@@ -121,11 +121,20 @@ class Ctx(object):
         self.exc_parent = {}            # name -> parent name
         self.tag = "" if scope is None else "_fs%d" % scope
         self.str_enum = None
+        self.run_tag = ""           # suffix of the symbols that stand for an arbitrary iteration order (self-composition)
         self.always_truthy = set(getattr(self, "always_truthy", ()))
 
     # -- names
     def fresh(self, base):
         return "%s!%d" % (base, next(self._n))
+
+    def counter_mark(self):
+        v = next(self._n)
+        self._n = itertools.count(v + 1)
+        return v + 1
+
+    def counter_reset(self, v):
+        self._n = itertools.count(v)
 
     # -- sorts
     def sort(self, ty):
@@ -326,13 +335,14 @@ def _z(x):
 
 class V(object):
     """A typed symbolic value.  For Tup with statically known arity `items` holds the element values."""
-    __slots__ = ("ty", "t", "items", "place")
+    __slots__ = ("ty", "t", "items", "place", "tag")
 
     def __init__(self, ty, t, items=None):
         self.ty = ty
         self.t = t
         self.items = items
         self.place = None
+        self.tag = None
 
     def __repr__(self):
         return "V(%r,%s)" % (self.ty, self.t if self.items is None else self.items)
